@@ -304,6 +304,13 @@ def run_case(desc):
     # (1) out-of-place
     try:
         r = op(x)
+    except NotImplementedError as e:
+        if 'does not implement `_call`' not in str(e):
+            raise Violation(sig('oop-raises', 'NotImplementedError'),
+                            '{}: op(x) raised {!r}'.format(name, e))
+        # documented: the class offers no evaluation (MoreauEnvelope,
+        # InfimalConvolution, default convex conjugate)
+        return Outcome('rejected', strata=['call-not-offered:' + name])
     except Exception as e:  # noqa
         if zoo.innermost_is_harness(e):
             raise
@@ -349,8 +356,14 @@ def run_case(desc):
         check_x('functional-out')
     else:
         # (2) in-place with two stale fills
+        outorder = desc['outorder']
+        if outorder == 'strided' and any(
+                a.dtype.kind == 'b' for a in _leaves(ran.element(), ran)):
+            # NumPy 1.26 itself mis-writes strided bool outputs of
+            # isfinite/isnan/signbit (reproduced without odl): not generated
+            outorder = 'C'
         for fill in (np.nan, float(desc['sentinel'])):
-            y = _fresh_out(ran, desc['outorder'], fill)
+            y = _fresh_out(ran, outorder, fill)
             try:
                 r2 = op(x, out=y)
             except Exception as e:  # noqa
@@ -358,8 +371,7 @@ def run_case(desc):
                     raise
                 raise Violation(
                     sig('inplace-raises', type(e).__name__ +
-                        ('' if desc['outorder'] == 'C' else '|out-' +
-                         desc['outorder'])),
+                        ('' if outorder == 'C' else '|out-' + outorder)),
                     '{}: op(x, out=y) raised {!r}'.format(name, e))
             if r2 is not y:
                 raise Violation(sig('identity'),
@@ -369,13 +381,12 @@ def run_case(desc):
                 raise Violation(
                     sig('stale-out' if fill != fill else 'inplace-value',
                         'fill=' + ('nan' if fill != fill else 'finite') +
-                        ('' if desc['outorder'] == 'C' else '|out-' +
-                         desc['outorder'])),
+                        ('' if outorder == 'C' else '|out-' + outorder)),
                     '{}: in-place result differs from op(x): {}'.format(
                         name, msg))
             check_x('inplace')
         strata.append('inplace')
-        strata.append('out-' + desc['outorder'])
+        strata.append('out-' + outorder)
         if name in zoo.INPLACE_UNTESTED:
             strata.append('inplace-untested-by-repo-suite')
         nontrivial = True
